@@ -354,3 +354,59 @@ def check_C15(tier, nproc=None):
     c.run_jobs(nproc)
     c.confirm()
     return c.finish()
+
+
+def check_C08(tier, nproc=None):
+    c = Check('C08', tier)
+    N = 6 if tier == 'quick' else 8
+    o = {'float_contract': True, 'no_float_overflow': True}
+    for validating in (False, True):
+        for n in range(0, N + 1):
+            if n >= 6:
+                for pre in prefix_splits(1 if n < 8 else 2):
+                    c.add(Job('vH_C08', [('bytes', 'd', n, pre), ('bool', validating)], weight=4 ** n, opts=o))
+            else:
+                c.add(Job('vH_C08', [('bytes', 'd', n), ('bool', validating)], weight=4 ** n, opts=o))
+        for t in TREE_TEMPLATES[:6]:
+            c.add(Job('vH_C08', [('tmpl', 'd', t), ('bool', validating)], weight=4 ** 6, opts=o))
+    c.bounds = {'N': N, 'templates': [_tmplstr(t) for t in TREE_TEMPLATES[:6]],
+                'decoders': 'per token a nondeterministic choice among the admissible API calls (typed reader / SkipValue / SkipValueFast / nested Handle*Values whose handler recurses)'}
+    c.must_reach = ['C08.composed', 'C08.direct-ok']
+    _std(c, ['number contract as in C03; numbers are assumed to fit float64 (overflow is C04)',
+             'value-tree reconstruction through handlers is checked in C03 (ValueReader is such a decoder); here: final offsets and failure of validating decoders'])
+    c.outside = ['documents longer than the bounds']
+    c.run_jobs(nproc)
+    c.confirm()
+    return c.finish()
+
+
+def check_C16(tier, nproc=None):
+    c = Check('C16', tier)
+    N = 5 if tier == 'quick' else 7
+    o = {'float_contract': True}
+    for n in range(0, N + 1):
+        for which in range(4):
+            c.add(Job('vH_C16_inputs', [('bytes', 'd', n), ('int', which)], weight=4 ** n, opts=o))
+        c.add(Job('vH_C16_owned', [('bytes', 'd', n)], weight=4 ** n, opts=o))
+        # append semantics / independence from prior contents and spare capacity of destination and scratch
+        for pre, spare in ([(1, 0), (2, 1), (2, 5)] if tier == 'quick' else [(1, 0), (1, 1), (2, 1), (2, 3), (2, 5), (2, n + 4)]):
+            c.add(Job('vH_C06_bytes', [('bytes', 'd', n), ('int', pre), ('int', spare)], weight=3 ** n))
+            c.add(Job('vH_C06_unescape', [('bytes', 'd', n), ('int', pre), ('int', spare)], weight=3 ** n))
+            if n <= 4:
+                c.add(Job('vH_C17', [('bytes', 'd', n), ('int', pre), ('int', spare)], weight=6 ** n))
+        c.add(Job('vH_C06_string', [('bytes', 'd', n), ('bool', True)], weight=3 ** n))
+    T = [[b'"', 1, b'\\', 1, 1, b'"'], [b'"\\u', 4, 1, b'"'], [b'["', 1, b'\\', 1, b'",{"', 1, b'\\', 1, b'":"', 1, b'"}]']]
+    for t in T:
+        c.add(Job('vH_C16_owned', [('tmpl', 'd', t)], weight=5000, opts=o))
+        c.add(Job('vH_C16_inputs', [('tmpl', 'd', t), ('int', 1)], weight=5000, opts=o))
+        c.add(Job('vH_C16_inputs', [('tmpl', 'd', t), ('int', 3)], weight=5000, opts=o))
+        for pre, spare in [(2, 0), (2, 2), (1, 7)]:
+            c.add(Job('vH_C06_bytes', [('tmpl', 'd', t), ('int', pre), ('int', spare)], weight=5000))
+    c.bounds = {'N': N, 'templates': [_tmplstr(t) for t in T], 'destinations': 'prefix 1..2 arbitrary bytes, spare capacity 0,1,3,5,n+4; dirty scratch buffers'}
+    c.must_reach = ['C16.inputs', 'C16.owned', 'C06.bytes-ok']
+    _std(c, ['strings are values in the encoding: a result aliasing a buffer through package unsafe cannot be represented; such code is reported as an unsupported construct (no verdict) and is only caught by the native replay of sampled inputs',
+             'every store through a pointer into an input object is a monitored event (write-to-input) besides the explicit comparison with a snapshot'])
+    c.outside = ['inputs longer than the bounds', 'aliasing created with package unsafe (see assumptions)']
+    c.run_jobs(nproc)
+    c.confirm()
+    return c.finish()
